@@ -49,6 +49,7 @@ package codegen
 //@   loop 0 invariant unchangedOld(fields(table[E])) && unchangedOld(elems(E)) && unchangedOld(maps(r.index)) && unchangedOld(maps(r.rowMap))
 //@   loop 0 invariant forall k int :: {arr[k]} 0 <= k && k < i && has(r.index, k) ==> arr[k] == E(r.index[k] + n)
 //@   loop 0 invariant forall k int :: {arr[k]} 0 <= k && k < i && !has(r.index, k) ==> arr[k] == E(0 - 1)
+//@   loop 0 hint i >= 1 && (has(r.index, i - 1) ==> arr[i - 1] == E(r.index[i - 1] + n)) && (!has(r.index, i - 1) ==> arr[i - 1] == E(0 - 1))
 //@   loop 0 decreases n - i
 //
 // ---- parser table emitters: _rules and _termCounts (closures lhs, term_counts of EmitParser) ----
@@ -113,6 +114,8 @@ package codegen
 //@   loop 0 invariant cap(matches) == 0 || fresh(matches)
 //@   loop 0 invariant forall j int :: {matches[j]} 0 <= j && j < len(matches) ==> exists k int :: 0 <= k && k <= rangeindex && matches[j] == methods[k] && matches(c, prod, methods[k])
 //@   loop 0 invariant forall k int :: {methods[k]} 0 <= k && k <= rangeindex && matches(c, prod, methods[k]) ==> exists j int :: 0 <= j && j < len(matches) && matches[j] == methods[k]
+//   the element just appended is its own witness
+//@   loop 0 hint matches(c, prod, methods[rangeindex]) ==> len(matches) >= 1 && matches[len(matches) - 1] == methods[rangeindex]
 //@   loop 0 decreases n - rangeindex
 //
 // The first part specifies the *generated runtime* (the Go text inside
@@ -134,6 +137,7 @@ package codegen
 //@ func _Stack.Pop
 //@   requires !isnil(s) && 0 <= n && n <= len(*s)
 //@   ensures *s == old((*s)[0:len(*s)-n])
+//@   ensures forall k int :: {(*s)[k]} 0 <= k && k < len(*s) ==> (*s)[k] == old((*s)[k])
 //@   modifies *s
 //
 //@ func _Stack.Peek
